@@ -1,0 +1,136 @@
+//! Pipeline access: lower a file tree, print MIR/LIR, evaluate `main` with the
+//! IR evaluator, or hand the *same* lowered IR to the code generator.
+
+use std::panic::{AssertUnwindSafe, catch_unwind};
+
+use crate::{
+    FileTree, NoCtx, Package, RotoReport, Runtime,
+    lir::{IrValue, Memory},
+    pipeline::{LoweredToLir, LoweredToMir},
+};
+
+/// A scalar value crossing the hook boundary (mirror of `lir::IrValue`).
+#[derive(Clone, Debug, PartialEq)]
+pub enum HookVal {
+    Bool(bool),
+    U8(u8),
+    U16(u16),
+    U32(u32),
+    U64(u64),
+    I8(i8),
+    I16(i16),
+    I32(i32),
+    I64(i64),
+    F32(u32),
+    F64(u64),
+    Char(u32),
+    Asn(u32),
+    Pointer(usize),
+}
+
+impl HookVal {
+    fn to_ir(&self) -> IrValue {
+        match *self {
+            HookVal::Bool(x) => IrValue::Bool(x),
+            HookVal::U8(x) => IrValue::U8(x),
+            HookVal::U16(x) => IrValue::U16(x),
+            HookVal::U32(x) => IrValue::U32(x),
+            HookVal::U64(x) => IrValue::U64(x),
+            HookVal::I8(x) => IrValue::I8(x),
+            HookVal::I16(x) => IrValue::I16(x),
+            HookVal::I32(x) => IrValue::I32(x),
+            HookVal::I64(x) => IrValue::I64(x),
+            HookVal::F32(x) => IrValue::F32(f32::from_bits(x)),
+            HookVal::F64(x) => IrValue::F64(f64::from_bits(x)),
+            HookVal::Char(x) => IrValue::Char(char::from_u32(x).unwrap()),
+            HookVal::Asn(x) => IrValue::Asn(inetnum::asn::Asn::from_u32(x)),
+            HookVal::Pointer(x) => IrValue::Pointer(x),
+        }
+    }
+
+    fn from_ir(v: &IrValue) -> HookVal {
+        match v {
+            IrValue::Bool(x) => HookVal::Bool(*x),
+            IrValue::U8(x) => HookVal::U8(*x),
+            IrValue::U16(x) => HookVal::U16(*x),
+            IrValue::U32(x) => HookVal::U32(*x),
+            IrValue::U64(x) => HookVal::U64(*x),
+            IrValue::I8(x) => HookVal::I8(*x),
+            IrValue::I16(x) => HookVal::I16(*x),
+            IrValue::I32(x) => HookVal::I32(*x),
+            IrValue::I64(x) => HookVal::I64(*x),
+            IrValue::F32(x) => HookVal::F32(x.to_bits()),
+            IrValue::F64(x) => HookVal::F64(x.to_bits()),
+            IrValue::Char(x) => HookVal::Char(*x as u32),
+            IrValue::Asn(x) => HookVal::Asn(x.into_u32()),
+            IrValue::Pointer(x) => HookVal::Pointer(*x),
+        }
+    }
+}
+
+/// A program lowered to MIR.
+pub struct Mir<'r> {
+    inner: LoweredToMir<'r, NoCtx>,
+}
+
+/// A program lowered to LIR.
+pub struct Lir<'r> {
+    inner: LoweredToLir<'r, NoCtx>,
+}
+
+/// Parse, type check and lower to MIR.
+pub fn lower_to_mir(
+    tree: FileTree,
+    rt: &Runtime<NoCtx>,
+) -> Result<Mir<'_>, RotoReport> {
+    let checked = tree.parse()?.typecheck(rt)?;
+    Ok(Mir {
+        inner: checked.lower_to_mir(),
+    })
+}
+
+impl<'r> Mir<'r> {
+    /// The MIR as printed by the crate's own printer.
+    pub fn text(&self) -> String {
+        self.inner.verif_text()
+    }
+
+    pub fn lower_to_lir(self) -> Lir<'r> {
+        Lir {
+            inner: self.inner.lower_to_lir(),
+        }
+    }
+}
+
+impl Lir<'_> {
+    /// The LIR as printed by the crate's own printer.
+    pub fn text(&self) -> String {
+        self.inner.verif_text()
+    }
+
+    /// Evaluate `main` with the IR evaluator. A panic inside the evaluator
+    /// (its documented "loud stop") is caught and returned as `Err`.
+    pub fn eval_main(&self, args: &[HookVal]) -> Result<Option<HookVal>, String> {
+        let args: Vec<IrValue> = args.iter().map(|a| a.to_ir()).collect();
+        let res = catch_unwind(AssertUnwindSafe(|| {
+            let mut mem = Memory::new();
+            let ctx = IrValue::Pointer(mem.allocate(0));
+            self.inner.eval(&mut mem, ctx, args)
+        }));
+        match res {
+            Ok(v) => Ok(v.as_ref().map(HookVal::from_ir)),
+            Err(e) => Err(if let Some(s) = e.downcast_ref::<String>() {
+                s.clone()
+            } else if let Some(s) = e.downcast_ref::<&str>() {
+                s.to_string()
+            } else {
+                "panic".to_string()
+            }),
+        }
+    }
+
+    /// Compile the same lowered IR with the JIT.
+    pub fn codegen(self) -> Package<NoCtx> {
+        self.inner.codegen()
+    }
+}
